@@ -188,7 +188,10 @@ func getValues(dir, tag, script string, terms []string, timeout time.Duration) (
 	body := script + "(get-value (" + strings.Join(terms, " ") + "))\n"
 	os.WriteFile(file, []byte(body), 0o644)
 	// cvc5 needs produce-models; the scripts already set it when they were built for the race
-	for _, s := range []solverSpec{solvers[0], solvers[2], solvers[3]} {
+	for _, s := range []solverSpec{solvers[0], solvers[3], solvers[2]} {
+		if !replayDeadline.IsZero() && time.Now().After(replayDeadline) {
+			break
+		}
 		r := runSolver(context.Background(), s, file, timeout)
 		if r.verdict != "sat" {
 			continue
@@ -228,8 +231,22 @@ func goBytesLit(b []byte) string {
 	return sb.String()
 }
 
+// replay budget: model read-back re-runs solvers; keep the whole check responsive on badly broken trees
+var replayDeadline time.Time
+var replaySpent time.Duration
+
+const replayBudgetPerCheck = 240 * time.Second
+const replayBudgetPerObligation = 75 * time.Second
+
 func (e *Engine) replay(ob *Obligation, dir string) *ReplayResult {
 	rr := &ReplayResult{Inputs: map[string]string{}}
+	if replaySpent > replayBudgetPerCheck {
+		rr.Note = "replay skipped: the replay time budget of this check run is used up"
+		return rr
+	}
+	t0 := time.Now()
+	replayDeadline = t0.Add(replayBudgetPerObligation)
+	defer func() { replaySpent += time.Since(t0) }()
 	ri := ob.Replay
 	if ri == nil || ri.Fn == nil {
 		rr.Note = "replay not available: no parameter information for this obligation"
@@ -332,7 +349,10 @@ func (e *Engine) replay(ob *Obligation, dir string) *ReplayResult {
 				continue
 			}
 		}
-		vals, solver = getValues(dir, "pass1", b+tail, terms, 20*time.Second)
+		if time.Now().After(replayDeadline) {
+			break
+		}
+		vals, solver = getValues(dir, "pass1", b+tail, terms, 10*time.Second)
 		if vals != nil {
 			base = b
 			break
